@@ -872,13 +872,14 @@ put_char(struct caption *cc, cc_channel *ch, vbi_char c)
 	/* c.foreground = rand() & 7; */
 	/* c.background = rand() & 7; */
 
-	if (ch->col < COLUMNS - 1)
+	/* 47 CFR 15.119 (f)(1)(v): Once the cursor reaches column 32
+	   all subsequent characters replace the character there. The
+	   cursor never moves past column 32 (EIA 608-B Annex C.13: a
+	   Backspace then moves to column 31). */
+	if (ch->col < COLUMNS - 2)
 		ch->line[ch->col++] = c;
-	else {
-		/* line break here? */
-
+	else
 		ch->line[COLUMNS - 2] = c;
-	}
 
 	if ((c.unicode & 0x7F) == 0x20)
 		word_break(cc, ch, 1);
@@ -1017,7 +1018,7 @@ caption_command(vbi_decoder *vbi, struct caption *cc,
 			c2 &= 15;
 
 			if (c2 == 9) { // "transparent space"
-				if (ch->col < COLUMNS - 1) {
+				if (ch->col < COLUMNS - 2) {
 					ch->line[ch->col++] = cc->transp_space[chan >> 2];
 					ch->col1 = ch->col;
 				} else
@@ -1237,7 +1238,7 @@ caption_command(vbi_decoder *vbi, struct caption *cc,
 // not verified
 			col = ch->col;
 
-			for (i = c2 & 3; i > 0 && col < COLUMNS - 1; i--)
+			for (i = c2 & 3; i > 0 && col < COLUMNS - 2; i--)
 				ch->line[col++] = cc->transp_space[chan >> 2];
 
 			if (col > ch->col)
